@@ -10,11 +10,14 @@ import (
 	"strconv"
 	"strings"
 
+	"github.com/nspcc-dev/neo-go/pkg/core/block"
 	"github.com/nspcc-dev/neo-go/pkg/core/fee"
 	"github.com/nspcc-dev/neo-go/pkg/core/interop"
 	"github.com/nspcc-dev/neo-go/pkg/core/interop/interopnames"
 	"github.com/nspcc-dev/neo-go/pkg/core/transaction"
 	"github.com/nspcc-dev/neo-go/pkg/crypto/keys"
+	"github.com/nspcc-dev/neo-go/pkg/io"
+	"github.com/nspcc-dev/neo-go/pkg/util"
 	"github.com/nspcc-dev/neo-go/pkg/smartcontract/scparser"
 	"github.com/nspcc-dev/neo-go/pkg/vm"
 	"github.com/nspcc-dev/neo-go/pkg/vm/opcode"
@@ -258,6 +261,14 @@ func genFeeConsts(repo string) (string, error) {
 	fmt.Fprintf(&b, "def attrNotaryAssisted : Nat := %d\n", byte(transaction.NotaryAssistedT))
 	fmt.Fprintf(&b, "def attrReservedLowerBound : Nat := %d\n", transaction.ReservedLowerBound)
 	fmt.Fprintf(&b, "def attrReservedUpperBound : Nat := %d\n", transaction.ReservedUpperBound)
+	// block sizing (pkg/core/block/block.go:24-28,221-229): the package computes this at init time the same way
+	fmt.Fprintf(&b, "/-- block.expectedHeaderSizeWithEmptyWitness = io.GetVarSize(new(block.Header)) (block.go:24-28). -/\n")
+	fmt.Fprintf(&b, "def expectedHeaderSizeWithEmptyWitness : Nat := %d\n", io.GetVarSize(new(block.Header)))
+	fmt.Fprintf(&b, "/-- (&block.Block{}).GetExpectedBlockSizeWithoutTransactions(0): empty witness, no state root. -/\n")
+	fmt.Fprintf(&b, "def emptyBlockExpectedSize : Nat := %d\n", (&block.Block{}).GetExpectedBlockSizeWithoutTransactions(0))
+	fmt.Fprintf(&b, "def uint256Size : Nat := %d\n", util.Uint256Size)
+	fmt.Fprintf(&b, "def uint160Size : Nat := %d\n", util.Uint160Size)
+	fmt.Fprintf(&b, "def blockMaxTransactionsPerBlock : Nat := %d\n", block.MaxTransactionsPerBlock)
 	b.WriteString("end NeoModel.Generated.FeeConsts\n")
 	return b.String(), nil
 }
